@@ -454,7 +454,7 @@ class ConfParser:
                 self._confs["classical"] = ".true."
 
         if "cutoff_frequency" in arg_list:
-            if self._args.cutoff_frequency:
+            if self._args.cutoff_frequency is not None:
                 self._confs["cutoff_frequency"] = self._args.cutoff_frequency
 
         if "displacement_distance" in arg_list:
@@ -468,7 +468,7 @@ class ConfParser:
                 )
 
         if "dynamical_matrix_decimals" in arg_list:
-            if self._args.dynamical_matrix_decimals:
+            if self._args.dynamical_matrix_decimals is not None:
                 self._confs["dm_decimals"] = self._args.dynamical_matrix_decimals
 
         if "calculator" in arg_list:
@@ -493,16 +493,16 @@ class ConfParser:
                     self._confs["fc_symmetry"] = ".true."
 
         if "force_constants_decimals" in arg_list:
-            if self._args.force_constants_decimals:
+            if self._args.force_constants_decimals is not None:
                 self._confs["fc_decimals"] = self._args.force_constants_decimals
 
         if "fpitch" in arg_list:
-            if self._args.fpitch:
+            if self._args.fpitch is not None:
                 self._confs["fpitch"] = self._args.fpitch
 
         if "frequency_conversion_factor" in arg_list:
             freq_factor = self._args.frequency_conversion_factor
-            if freq_factor:
+            if freq_factor is not None:
                 self._confs["frequency_conversion_factor"] = freq_factor
 
         if "frequency_scale_factor" in arg_list:
@@ -511,7 +511,7 @@ class ConfParser:
                 self._confs["frequency_scale_factor"] = freq_scale
 
         if "gv_delta_q" in arg_list:
-            if self._args.gv_delta_q:
+            if self._args.gv_delta_q is not None:
                 self._confs["gv_delta_q"] = self._args.gv_delta_q
 
         if "hdf5_compression" in arg_list:
@@ -632,7 +632,7 @@ class ConfParser:
                 self._confs["random_displacements"] = nrand
 
         if "random_seed" in arg_list:
-            if self._args.random_seed:
+            if self._args.random_seed is not None:
                 seed = self._args.random_seed
                 if np.issubdtype(type(seed), np.integer) and seed >= 0 and seed < 2**32:
                     self._confs["random_seed"] = seed
@@ -661,20 +661,20 @@ class ConfParser:
                     self._confs["sigma"] = self._args.sigma
 
         if "symmetry_tolerance" in arg_list:
-            if self._args.symmetry_tolerance:
+            if self._args.symmetry_tolerance is not None:
                 symtol = self._args.symmetry_tolerance
                 self._confs["symmetry_tolerance"] = symtol
 
         if "tmax" in arg_list:
-            if self._args.tmax:
+            if self._args.tmax is not None:
                 self._confs["tmax"] = self._args.tmax
 
         if "tmin" in arg_list:
-            if self._args.tmin:
+            if self._args.tmin is not None:
                 self._confs["tmin"] = self._args.tmin
 
         if "tstep" in arg_list:
-            if self._args.tstep:
+            if self._args.tstep is not None:
                 self._confs["tstep"] = self._args.tstep
 
         from phonopy.interface.calculator import get_interface_mode
@@ -1667,7 +1667,7 @@ class PhonopyConfParser(ConfParser):
 
         if "thermal_displacement_matrices_cif" in arg_list:
             opt_tdm_cif = self._args.thermal_displacement_matrices_cif
-            if opt_tdm_cif:
+            if opt_tdm_cif is not None:
                 self._confs["tdispmat_cif"] = opt_tdm_cif
 
         if "projection_direction" in arg_list:
@@ -1736,7 +1736,7 @@ class PhonopyConfParser(ConfParser):
                 self._confs["band_connection"] = ".true."
 
         if "cutoff_radius" in arg_list:
-            if self._args.cutoff_radius:
+            if self._args.cutoff_radius is not None:
                 self._confs["cutoff_radius"] = self._args.cutoff_radius
 
         if "modulation" in arg_list:
@@ -1756,7 +1756,7 @@ class PhonopyConfParser(ConfParser):
                 self._confs["moment"] = ".true."
 
         if "moment_order" in arg_list:
-            if self._args.moment_order:
+            if self._args.moment_order is not None:
                 self._confs["moment_order"] = self._args.moment_order
 
         if "rd_temperature" in arg_list:
@@ -1820,7 +1820,7 @@ class PhonopyConfParser(ConfParser):
                     self._confs["dim"] = "1 1 1"
 
         if "sscha_iterations" in arg_list:
-            if self._args.sscha_iterations:
+            if self._args.sscha_iterations is not None:
                 self._confs["sscha_iterations"] = self._args.sscha_iterations
 
     def _parse_conf(self):
